@@ -232,6 +232,7 @@ func (s *state) transportLevel() {
 		}
 		s.r.Count("tpt_goroutines_left_after_family", max(0, runtime.NumGoroutine()-baseline))
 	}()
+	s.r.Assume("transport level (transport_test.go): QUIC, WebTransport, WebRTC-direct, TCP and WebSocket are driven over real loopback sockets with hosts built by libp2p.New; quic-go, webtransport-go, pion and gorilla/websocket are trusted beyond what these cases exercise; a refusal (also by a real-time limit) is never judged, only counted")
 	kinds := tptKinds()
 	type job struct {
 		k             tptKind
